@@ -284,10 +284,34 @@ def r_sexagesimal_refusals(cx):
             continue
         n += 1
         bad = None
-        for at, tv in guards.branch_facts(f, bb):
+        # the tests that lead here: those that dominate the block, and - for a condition written as a chain of `||` - the
+        # switches whose edges meet in it
+        conds = [at for at, tv in guards.branch_facts(f, bb)]
+        seen_b, work = set(), [bb]
+        while work and len(seen_b) < 60:
+            x = work.pop()
+            for pb in f.pred[x]:
+                if pb in seen_b or pb not in f.reachable() or f.innermost_loop(pb) is not f.innermost_loop(bb):
+                    continue
+                seen_b.add(pb)
+                tt = f.term(pb)
+                if tt["k"] == "switch":
+                    conds.extend(guards.atoms(f, f.operand(tt["discr"], f.end_point(pb))))
+                    # a chain of `||`: the earlier tests fall through to this one
+                    if len(f.pred[pb]) == 1 and f.term(f.pred[pb][0])["k"] == "switch":
+                        work.append(pb)
+                else:
+                    work.append(pb)
+        for at in conds:
             at = mir.strip_refs(at)
             parsed = []
             mir.walk(at, lambda y: (parsed.append(1) if y[0] == "call" and isinstance(y[1], str) and y[1].endswith("str>::parse") else None) or True)
+            # a comparison with a floating point constant can only be about the size of a part (the stored parts may be
+            # seen through an array carried round the loop, where the parse call is not visible any more)
+            if at[0] == "bin" and at[1] in ("Lt", "Le", "Gt", "Ge") and any(
+                    mir.strip_refs(z)[0] == "const" and isinstance(mir.strip_refs(z)[2], tuple) and mir.strip_refs(z)[2][0] == "float"
+                    for z in (at[2], at[3])):
+                bad = "a comparison of a part with a floating point constant"
             if not parsed:
                 continue
             if at[0] == "bin" and at[1] in ("Lt", "Le", "Gt", "Ge"):
